@@ -34,6 +34,8 @@ def scenario(ctx, i):
                 s_["n"] = sts[0]["n"].copy()
                 s_["f"] = mean_ * s_["n"][:, None]
                 s_["s"] = (var_ + mean_**2) * s_["n"][:, None]
+    if r.random() < 0.25:  # statistics filled in by hand: the frame counter stays at its default 0, counts and sums are set
+        sts[int(r.integers(0, len(sts)))]["t"] = 0
     if kind == "zero_in_some" and C > 1:
         sts[0]["n"][0] = 0.0
         sts[0]["f"][0] = 0.0
